@@ -12,7 +12,7 @@ def showRes {α : Type} (f : α → String) : Res α → String
   | .panic => "panic"
 
 /-- `gen pw=<hex> cost=<int> rnd=<hex 16>` → `ok <hash hex>` | `err:<class>` | `panic`
-    `cmp hash=<hex> pw=<hex>` → `cost=<n|err:..|panic> cmp=<ok|err:..|panic>` -/
+    `cmp hash=<hex> pw=<hex>` → `cost=<n|err:..|panic> cmp=<ok|err:..|panic>`;  `cost hash=<hex>` → `cost=<…>` -/
 def handle (line : String) : String :=
   let o := parseOp line
   match o.cmd with
@@ -26,6 +26,10 @@ def handle (line : String) : String :=
     | some h, some pw =>
       s!"cost={showRes (fun (c : Int) => toString c) (cost h)} cmp={showRes (fun _ => "ok") (compare h pw)}"
     | _, _ => "bad-op"
+  | "cost" =>
+    match o.hex? "hash" with
+    | some h => s!"cost={showRes (fun (c : Int) => toString c) (cost h)}"
+    | none => "bad-op"
   | _ => "bad-op"
 
 end XC.C17
